@@ -228,3 +228,23 @@ Definition edges4 (cs : list Z) : option (list Z) :=
   end.
 Definition decode_occ (H : list Z -> list Z -> list nat) (cs : list Z) (fv : list Z) : option (list nat) :=
   option_map (fun e => H e (scale 4 fv)) (edges4 cs).
+
+(* ---------------------------------------------------------------------------------------------- *)
+(* specification vocabulary (used by the theorems; not extracted)                                 *)
+(* queries qs of one epoch answered from the feature rows (time, value) of the same epoch *)
+Definition attr_block (qs : list Z) (rows : list (Z * Z)) : list (option Z) :=
+  match rows with
+  | [] => map (fun _ => None) qs
+  | _ :: _ => map (option_map (fun j => snd (nth j rows (0, 0)))) (vf_interval 1 qs (map fst rows) 0%nat)
+  end.
+(* o is the value of a row of [rows] whose time is nearest to x *)
+Definition nearest (x : Z) (rows : list (Z * Z)) (o : option Z) : Prop :=
+  exists j, (j < length rows)%nat /\ o = Some (snd (nth j rows (0, 0))) /\
+            Forall (fun r => Z.abs (fst (nth j rows (0, 0)) - x) <= Z.abs (fst r - x)) rows.
+Definition in_hbin (edges : list Z) (k : nat) (o : option Z) : bool :=
+  match o with Some v => hbin edges k v | None => false end.
+Definition in_hbin2 (ex ey : list Z) (i j : nat) (o : option (Z * Z)) : bool :=
+  match o with Some (x, y) => hbin ex i x && hbin ey j y | None => false end.
+Definition in_range_o (edges : list Z) (o : option Z) : bool :=
+  match o with Some v => (hd 0 edges <=? v) && (v <=? last edges 0) | None => false end.
+Definition sum_nat (l : list nat) : nat := fold_right Nat.add 0%nat l.
